@@ -24,4 +24,4 @@ git checkout -q -- .
 if [ $a -ne 0 ] || [ $b -eq 0 ] || [ -n "$fails" ]; then echo "$NAME: REJECTED (demo-without rc=$a, demo-with rc=$b, suite='$fails')"; exit 1; fi
 mkdir -p /verif/seeded/$NAME; cp _seed/patch.diff _seed/meta.json /verif/seeded/$NAME/; cp $DEMO /verif/seeded/$NAME/demo_test.go
 echo "$NAME: VERIFIED (applies, builds, suite green, demo fails with / passes without)"
-/verif/tools/seedmatrix.sh quick $NAME
+[ -n "$NOMATRIX" ] || /verif/tools/seedmatrix.sh quick $NAME
